@@ -251,8 +251,18 @@ func bfgs(f_ Objective, f ObjectiveInSitu, x0 Vector, H0 Matrix, epsilon Epsilon
       X2.VaddV(x1, P2)
       return f_(X2)
     }
+    // constraints are handed to the line search, which halves the step
+    // until the new position is valid
+    var phi_constraints func(ConstScalar) bool
+    if constraints.Value != nil {
+      phi_constraints = func(alpha ConstScalar) bool {
+        P2.VmulS(p1, alpha)
+        X2.VaddV(x1, P2)
+        return constraints.Value(X2)
+      }
+    }
     // perform line search to find a new point x2
-    alpha, err := lineSearch.Run(phi, Float64Type, lineSearch.Parameters{1, 100})
+    alpha, err := lineSearch.Run(phi, Float64Type, lineSearch.Parameters{1, 100}, lineSearch.Constraints{phi_constraints})
     // compute new position
     p2.VmulS(p1, alpha)
     x2.VaddV(x1, p2)
